@@ -153,6 +153,12 @@ func sessionPools(r *Rand, npools int) ([][]sessInput, int) {
 	unopt := base
 	unopt.Optimize = false
 	pools = append(pools, []sessInput{{psSrc, sw1}, {psSrc, sw2}, {psSrc, lm}, {psSrc, unopt}})
+	// errors are results too: an unknown font id, with and without other differences
+	badFont := "text T {\n    format(\"Hello there\", \"no_such_font\")\n}\n"
+	badFont2 := "script S {\n    msgbox(format(\"Hello\", fontId=\"nope\"))\n}\n"
+	bogus := base
+	bogus.FontID = "bogus_default"
+	pools = append(pools, []sessInput{{badFont, base}, {badFont2, base}, {fmtSrc(""), bogus}, {badFont, unoptOf(base)}})
 	// line markers with different input paths in one process
 	lmB, lmC := lm, lm
 	lmB.InputPath, lmC.InputPath = "maps/other dir/b.pory", `C:\data\c.pory`
